@@ -32,6 +32,11 @@ structure SpecSt where
   hist : Assoc (Assoc (List Bytes)) := []
   /-- committed state at each `backup <n>` -/
   backups : List (Nat × SpecDB) := []
+  /-- under a concurrent Merge: the (bucket, key, value) of every put this transaction has queued — all of
+  them reach the data file when it commits (also the ones a later put of the same transaction overwrites,
+  and, by finding D-COMMIT-PARTIAL, the ones before the record that makes the commit fail), and the unlocked
+  Merge can write any of them back -/
+  txPuts : List (Bytes × Bytes × Bytes) := []
   /-- a finding that explains divergences at the crash points of the last Merge only (never its completed
   result): set by `merge`, cleared by `capture` -/
   mergeCrashTaint : Option String := none
@@ -180,21 +185,28 @@ def step (sp : SpecSt) (model : State) (cmd : String) (impl : String) : SpecOut 
     if !sp.opened then { st := sp, expect := some (ex "err") }
     else
       let id := parseNat (resPayload impl)
-      { st := { sp with txOpen := true, txW := a 1 == "w", txClosed := false, work := sp.committed, writeSet := [], txids := id :: sp.txids },
+      { st := { sp with txOpen := true, txW := a 1 == "w", txClosed := false, work := sp.committed, writeSet := [], txPuts := [], txids := id :: sp.txids },
         expect := some (ex impl), taint := if sp.txids.contains id then some "D-TXID" else none }
   | "commit" =>
     if !sp.txOpen || sp.txClosed then { st := sp, expect := some (ex "err") }
     else
       let installed := sp.txW && cls == "ok"
       -- a failing commit of a write transaction is legitimate (oversized entry); it must change nothing
-      let hist' := if installed && sp.concMerge then
+      let hist0 := if installed && sp.concMerge then
           sp.work.kv.foldl (fun h (b, m) => m.foldl (fun h (k, e) =>
             let hb := (aget? h b).getD []
             let hk := (aget? hb k).getD []
             if hk.contains e.value then h else aput h b (aput hb k (e.value :: hk))) h) sp.hist
         else sp.hist
+      -- every value the commit loop wrote to the file, whether or not it is the transaction's final one
+      let hist' := if sp.txW && sp.concMerge then
+          sp.txPuts.foldl (fun h (b, k, v) =>
+            let hb := (aget? h b).getD []
+            let hk := (aget? hb k).getD []
+            if hk.contains v then h else aput h b (aput hb k (v :: hk))) hist0
+        else hist0
       { st := { sp with committed := if installed then sp.work else sp.committed, txClosed := true, writeSet := [],
-                        prev := sp.committed, lastTx := sp.txids.headD 0, hist := hist' },
+                        prev := sp.committed, lastTx := sp.txids.headD 0, hist := hist', txPuts := [] },
         expect := some (ex "ok" (errOk := sp.txW)),
         taint := if sp.txW && cls != "ok" && sp.writeSet.length ≥ 2 then some "D-COMMIT-PARTIAL" else none }
   | "rollback" =>
@@ -240,7 +252,9 @@ def step (sp : SpecSt) (model : State) (cmd : String) (impl : String) : SpecOut 
   -- ---------------- KV
   | "put" =>
     if (B 2).isEmpty then { st := sp, expect := some (ex "err") }
-    else wr ("k:" ++ a 1) (kvPut cur (B 1) (B 2) (B 3) (N 5) (N 4)) (ex "ok")
+    else
+      let o := wr ("k:" ++ a 1) (kvPut cur (B 1) (B 2) (B 3) (N 5) (N 4)) (ex "ok")
+      if sp.concMerge && canWrite && cls == "ok" then { o with st := { o.st with txPuts := (B 1, B 2, B 3) :: sp.txPuts } } else o
   | "del" =>
     if (B 2).isEmpty then { st := sp, expect := some (ex "err") }
     else wr ("k:" ++ a 1) (kvDel cur (B 1) (B 2)) (ex "ok")
